@@ -134,6 +134,12 @@ def main(argv):
                                        obligation='kani(%s)' % k['harness'], id='%s::%s::kani(%s)' % (name, k.get('fn', k['harness']), k['harness']),
                                        message=k['detail'], rendered=k.get('log_tail', ''), cex=k.get('cex'), src=k.get('src', '')))
 
+    # one report per obligation (a postcondition can fail at several exits)
+    seen_ids, uniq = set(), []
+    for v in violations:
+        if v['id'] not in seen_ids:
+            seen_ids.add(v['id']); uniq.append(v)
+    violations = uniq
     # ---- triage of violations: replay, known findings
     rc = 0
     lines = []
